@@ -458,7 +458,7 @@ META = {
              'every make_patch output is round-tripped through apply_patch, parsed back and validated by TLC (valid diff, applies to b, reverts to a); Protocol.diff / patch '
              'are round-tripped on small protocols.'),
     'design_ref': 'DESIGN.md section 5 C30',
-    'note': ('Trusted: concretisation of line letters (pools), the diff-text renderer and parser, protocol JSON construction. Bounds quick: texts <= 3 lines (old text up to renaming) x '
+    'note': ('Trusted: concretisation of line letters (pools), the diff-text renderer and parser, protocol JSON construction. Plus ~2.9k round trips of 9..45-line texts (edits around lines 9-11, 19-21, 30; contexts 0..3) judged by the statement itself. Bounds quick: texts <= 3 lines (old text up to renaming) x '
              'contexts 0..3 with one canonical script, all scripts for texts <= 2 lines; thorough: <= 4 lines canonical, all / all shortest scripts for <= 3 lines. '
              'The protocol clause calls diff / patch with Protocol instances as documented.'),
     'technique': 'TLA+ spec + TLC exhaustive model checking; spec-behaviour replay into apply_patch; implementation diffs validated by the TLC model (given mode)',
